@@ -1,7 +1,7 @@
 #!/bin/bash
 # try_seed.sh <patch.diff> <Cxx> : apply a seeded patch to /repo, run ./check <Cxx>, undo. (never commits)
 set -u
-P=$1; ID=$2
+P=$(readlink -f "$1"); ID=$2
 cd /repo && git diff --quiet || { echo "/repo dirty, refusing"; exit 2; }
 git -C /repo apply "$P" || { git -C /repo apply --3way "$P" || { echo "patch does not apply"; exit 2; }; }
 cd /verif && VERIF_EVIDENCE_DIR=${TMPDIR:-/tmp}/verif-try-evidence ./check $ID; RC=$?
